@@ -31,7 +31,28 @@ def contract_process_resend(I, args, kwargs):
     stv = SInt(st.t) if hasattr(st, "t") else st.value
     g["W"].append(FramesTail())
     g["EV"].append(("resend_served", ()))
-    if not I.ctx.branch(Eq(stv, sc.ST["RESENDREQ_AWAITING"])):
+    g["resend_contract_used"] = True
+    jr = conn.f["_journaler"]
+    sess = conn.f["_session"]
+    awaiting = I.ctx.branch(Eq(stv, sc.ST["RESENDREQ_AWAITING"]))
+    if I.ctx.branch(I.ctx.fresh_bool("resend_fails")):
+        # the real function can stop half way (unparsable / missing BeginSeqNo or EndSeqNo, BeginSeqNo <= 0 or
+        # beyond the last number sent, a journal row that does not decode, send refused ...): the state stays
+        # RESENDREQ_HANDLING, the outbound counter is whatever the rewind left (>= 1, rows only below it)
+        if not awaiting:
+            conn.f["_connection_state"] = I.class_attr(CS, "RESENDREQ_HANDLING")
+            g["EV"].append(("on_state_change", ()))
+        nout2 = I.ctx.fresh_int("nout_after_failed_resend")
+        I.ctx.assume(nout2 >= 1)
+        sess.f["next_num_out"] = nout2
+        jr.f["J_out"] = I.ctx.fresh_int("J_out_after_failed_resend")
+        rows2 = z3.Array(I.ctx.fresh_name("out_rows_after_failed_resend"), z3.IntSort(), z3.BoolSort())
+        k0 = g.get("k0")
+        if k0 is not None:
+            I.ctx.assume(Implies(k0 >= nout2, SBool(z3.Not(z3.Select(rows2, k0.t)))))
+        jr.f["out_rows"] = rows2
+        I.raise_("AssertionError")
+    if not awaiting:
         conn.f["_connection_state"] = I.class_attr(CS, "ACTIVE")
         conn.f["_connection_was_active"] = True
         g["EV"].append(("on_state_change", ()))
